@@ -246,7 +246,8 @@ else:
         print(json.dumps({'system': True, 'is_setup': bool(ss.is_setup), 'm': int(ss.dae.m), 'n': int(ss.dae.n),
                           'pf': bool(ss.PFlow.converged), 'tds_init': ss.TDS.initialized, 'test_ok': ss.TDS.test_ok,
                           'tds_t': float(ss.dae.t), 'tds_tf': float(ss.TDS.config.tf), 'busted': bool(ss.TDS.busted),
-                          'exit_code': int(ss.exit_code), 'nan': bool(__import__('numpy').isnan(ss.dae.xy).any())}))
+                          'exit_code': int(ss.exit_code), 'nan': bool(__import__('numpy').isnan(ss.dae.xy).any()),
+                          'tds_ok': bool((not ss.TDS.busted) and float(ss.dae.t) == float(ss.TDS.config.tf) and ss.TDS.initialized)}))
 '''
 
 
@@ -299,6 +300,16 @@ def make_inputs(tmp):
         pass
     # static-only case: EIG has nothing to analyse
     out.append(('eig-without-states', andes.get_case('ieee14/ieee14.raw'), ['eig'], {}, False))
+    # a failure followed by a routine that succeeds: the failure must survive in the exit code
+    out.append(('eig-fails-then-tds-succeeds', andes.get_case('ieee14/ieee14.raw'), ['eig', 'tds'], {'tf': 0.1}, False))
+    # inconsistent dynamic data: turbine limit below the dispatched power -> initialisation test fails
+    ss = andes.load(andes.get_case('kundur/kundur_full.xlsx'), setup=False, no_output=True, default_config=True)
+    for i in range(len(ss.TGOV1.VMAX.v)):
+        ss.TGOV1.VMAX.v[i] = 0.1
+    ss.setup()
+    f4 = os.path.join(tmp, 'badinit.json')
+    ajson.write(ss, f4)
+    out.append(('failed-initialisation', f4, ['tds'], {'tf': 0.2}, False))
     # unstable disturbance: long fault trips the stability criterion
     ss = andes.load(andes.get_case('kundur/kundur_full.xlsx'), setup=False, no_output=True, default_config=True)
     ss.add('Fault', dict(bus=ss.Bus.idx.v[6], tf=0.1, tc=2.0, xf=1e-4))
@@ -365,6 +376,9 @@ def cli_stream(ctx):
                     rl.append('e:%d:1' % int(b['n'] > 0))
             flags = '11%d%d%d' % (int(b['is_setup']), int(b['m'] > 0), int(b['pf']))
             rs = ','.join(rl) or '-'
+            if 'tds' in routine and b['test_ok'] is False and b.get('tds_ok') is True:
+                ctx.oracle_fail('tds-run-true-after-failed-init', 'TDS.run() returned True although the initialisation test failed '
+                                '(only the exit code, %d, records the failure)' % ex, cs)
             if b['nan'] and ex == 0:
                 ctx.oracle_fail('nan-state-exit-zero', 'NaN in the final state with exit code 0', cs)
         lines.append('cli %s %s' % (flags, rs))
